@@ -11,6 +11,7 @@
 /// 6.  Unlink the files logged in 4.
 /// 7.  Log to remove every file listed in 4's edit.
 use std::cmp::Ordering;
+use std::collections::HashSet;
 use std::fs::{read_dir, remove_file};
 use std::path::{Path, PathBuf};
 
@@ -92,6 +93,14 @@ impl LsmVerifier {
         // 2.  Collect the list of ssts and logs to be removed.  Wait until all are present.
         let verifier_setsum = setsum_from_info_default('O', self.mani.info('O'))?;
         let (output_setsum, ssts_to_rm, logs_to_rm) = self.verify_one(entry, verifier_setsum)?;
+        // NOTE:  A later transaction may have re-created a table with the digest of one this
+        // fragment removed.  The file in the trash is then the only copy a still-later removal of
+        // that digest will be verified against, so it is left for that transaction to retire.
+        let readded = self.added_after(entry)?;
+        let ssts_to_rm = ssts_to_rm
+            .into_iter()
+            .filter(|sst| !readded.contains(&sst.hexdigest()))
+            .collect::<Vec<_>>();
         let mut edit = Edit::default();
         for sst in ssts_to_rm.iter() {
             let path = TRASH_SST(&self.root, *sst);
@@ -112,6 +121,26 @@ impl LsmVerifier {
         self.mani.apply(edit)?;
         self.possibly_complete_processing(entry)?;
         Ok(())
+    }
+
+    fn added_after(&self, entry: &PathBuf) -> Result<HashSet<String>, SError> {
+        let mut added = HashSet::new();
+        let this = mani::extract_backup(entry);
+        for later in list_mani_fragments(&self.root)? {
+            let number = mani::extract_backup(&later);
+            if number.is_some() && number <= this {
+                continue;
+            }
+            if !later.exists() {
+                continue;
+            }
+            for edit in ManifestIterator::open(&later)? {
+                for digest in edit?.added() {
+                    added.insert(digest.to_string());
+                }
+            }
+        }
+        Ok(added)
     }
 
     fn possibly_complete_processing(&mut self, entry: &PathBuf) -> Result<(), SError> {
@@ -190,6 +219,10 @@ impl LsmVerifier {
                 let setsum = Setsum::from_hexdigest(added)
                     .ok_or_else(|| corruption(format!("manifest added has bad digest: {added}")))?;
                 computed_discard -= setsum;
+                // A table removed earlier in this fragment and created again is live again.
+                if !first {
+                    ssts_to_remove.retain(|removed| *removed != setsum);
+                }
                 // NOTE:  The balance checked below is over the digests the manifest records.  It
                 // only covers the data if every table holds what its digest says, so each table
                 // is read once, in the transaction that adds it.
